@@ -261,7 +261,8 @@ class Recorder:
         self.cur = None          # (node, is_root) while populate runs
         self.choices = []        # indices sampled since the last mark
         self.calls = []          # solver calls since the last mark
-        self.policy_log = []     # (node, result) of every Node.policy_probs call (C09)
+        self.policy_log = []     # every Node.policy_probs call with the statistics it read (C09)
+        self.all_calls = []      # every solver call of the whole history (C09)
         self.phases = []
         self.problems = []
         self.phase_noise = None
@@ -322,13 +323,19 @@ class Recorder:
 
             def solve(pi, q, lam):
                 out = o_solve(pi, q, lam)
-                rec.calls.append({"pi": pi.detach().clone(), "q": q.detach().clone(), "lam": lam,
-                                  "out": out.detach().clone()})
+                call = {"pi": pi.detach().clone(), "q": q.detach().clone(), "lam": lam, "pi_obj": pi,
+                        "out": out.detach().clone()}
+                rec.calls.append(call)
+                rec.all_calls.append(call)
                 return out
 
             def policy_probs(node, c):
+                stats = snapshot_stats(node)
+                k0 = len(rec.all_calls)
                 out = o_pp(node, c)
-                rec.policy_log.append((node, c, out, snapshot_stats(node)))
+                call = rec.all_calls[-1] if len(rec.all_calls) > k0 else None
+                rec.policy_log.append({"node": node, "c": c, "out": out, "stats": stats, "call": call,
+                                       "prior": node.child_probs})
                 return out
             tak_ext.solve_policy = solve
             mcts.Node.policy_probs = policy_probs
@@ -628,13 +635,31 @@ def audit(trace, max_problems=5):
 # --------------------------------------------------------------------------
 # Coq literals of a trace
 # --------------------------------------------------------------------------
+def code_chk(code):
+    acc = 7
+    for d in code:
+        acc = (acc * 1000003 + d) % 2147483647
+    return acc
+
+
 def c_onode(node):
+    from tak.model import encoding
     code = czlist(pos_code(node.position))
     if (node.children is None and node.simulations == 0 and node.move is not None and node.child_probs is None
             and node.value == 0 and node.v_zero == 0):
-        return f"(OU {code} {takio.c_move(node.move)})"
+        try:   # a child nobody has touched: checksum of the position code + move id
+            return f"(OUn {code_chk(pos_code(node.position))} {encoding.encode_move(node.position.size, node.move)})"
+        except KeyError:
+            pass
     mv = copt(None if node.move is None else takio.c_move(node.move))
-    probs = "[]" if node.child_probs is None else clist([c_fq(float(x)) for x in node.child_probs.tolist()])
+    if node.child_probs is None:
+        probs = "[]"
+    else:
+        pl = [float(x) for x in node.child_probs.tolist()]
+        if len(pl) > 3 and all(x == pl[0] for x in pl):
+            probs = f"(repeat {c_fq(pl[0])} {len(pl)}%nat)"
+        else:
+            probs = clist([c_fq(x) for x in pl])
     kids = "None" if node.children is None else "(Some " + clist([c_onode(c) for c in node.children]) + ")"
     return (f"(ONode {code} {mv} {c_fq(node.v_zero)} {c_fq(node.value)} {cz(node.simulations)} {probs} {kids})")
 
@@ -718,7 +743,7 @@ def gen_specs(run, count, sizes, max_budget, transformer=2):
     for k in range(count):
         size = sizes[k % len(sizes)] if k < 2 * len(sizes) else rng.choice(sizes)
         kind = kinds[k % len(kinds)]
-        if kind == "dense" and size > 4:
+        if kind == "dense" and size > 3:
             kind = "random"
         opening_len = rng.choice([0, 0, 1, 2, 3, 4, 6, 8, 10] if size <= 4 else [0, 1, 2, 5, 9])
         budget = 1 + (k % max_budget) if k < max_budget else rng.randint(1, max_budget)
@@ -750,7 +775,7 @@ def gen_specs(run, count, sizes, max_budget, transformer=2):
                       "eval": {"kind": "transformer", "seed": rng.randrange(1 << 30)},
                       "sampler": {"mode": "torch", "seed": rng.randrange(1 << 30)},
                       "noise": None, "C": 4.0, "cutoff": 1e-6,
-                      "phases": [{"path": [], "limit": 30 + 10 * t}, {"path": [rng.randrange(1000)], "limit": 25}]})
+                      "phases": [{"path": [], "limit": 16 + 8 * t}, {"path": [rng.randrange(1000)], "limit": 12}]})
     return specs
 
 
